@@ -107,8 +107,12 @@ func (c *c19) scalar(kind string, val []byte) {
 	c.out.Emit(ev)
 }
 
-func (c *c19) hdr(kind string, a, b2, n int, name []byte, seq []byte) {
-	ev := map[string]interface{}{"ev": "Hdr", "kind": kind, "a": a, "b2": b2, "n": n, "name": B(name), "seq": B(seq), "backed": true}
+func (c *c19) hdr(kind string, a, b2, n int, name []byte, seq []byte) { c.hdrAt(kind, a, b2, n, name, seq, nil, nil) }
+
+// hdrAt: kinds listpos / mappos reserve the size slot behind pre, append tail, and patch the count in afterwards (ModifyI32)
+func (c *c19) hdrAt(kind string, a, b2, n int, name []byte, seq []byte, pre, tail []byte) {
+	ev := map[string]interface{}{"ev": "Hdr", "kind": kind, "a": a, "b2": b2, "n": n, "name": B(name), "seq": B(seq), "backed": true,
+		"pre": B(pre), "tail": B(tail), "pos": -1}
 	rr := map[string]interface{}{"st": "skipped", "n": 0, "a": 0, "b2": 0, "num": 0, "name": B{}, "seq": B(seq)}
 	func() {
 		defer func() {
@@ -137,17 +141,37 @@ func (c *c19) hdr(kind string, a, b2, n int, name []byte, seq []byte) {
 			err = p.WriteMapBegin(thrift.Type(a), thrift.Type(b2), n)
 		case "msg":
 			err = p.WriteMessageBegin(string(name), thrift.TMessageType(a), int32(fromBE8(append(make([]byte, 4), seq...))))
+		case "listpos", "mappos":
+			for _, x := range pre {
+				p.WriteByte(x)
+			}
+			pos := 0
+			if kind == "listpos" {
+				pos, err = p.WriteListBeginWithSizePos(thrift.Type(a), int(int32(n)^0x5a5a5a5a))
+			} else {
+				pos, err = p.WriteMapBeginWithSizePos(thrift.Type(a), thrift.Type(b2), int(int32(n)^0x5a5a5a5a))
+			}
+			ev["pos"] = pos
+			for _, x := range tail {
+				p.WriteByte(x)
+			}
+			if err == nil {
+				err = p.ModifyI32(pos, int32(n))
+			}
 		}
 		ev["wst"] = st(err)
 		enc := append([]byte{}, p.Buf...)
 		ev["enc"] = B(enc)
+		if len(pre)+len(tail) <= len(enc) {
+			enc = enc[len(pre) : len(enc)-len(tail)]
+		}
 		// a container header is followed by its elements: the reader may check the count against the bytes that
 		// are left, so the header is read with that many (smallest possible) elements behind it when feasible
 		pad, backed := 0, true
 		switch kind {
-		case "list", "set":
+		case "list", "set", "listpos":
 			pad = n
-		case "map":
+		case "map", "mappos":
 			pad = 2 * n
 		}
 		if pad < 0 || pad > 200000 {
@@ -162,13 +186,13 @@ func (c *c19) hdr(kind string, a, b2, n int, name []byte, seq []byte) {
 		case "stop":
 			_, t, _, e := r.ReadFieldBegin()
 			rr["st"], rr["a"] = st(e), int(t)
-		case "list":
+		case "list", "listpos":
 			t, sz, e := r.ReadListBegin()
 			rr["st"], rr["a"], rr["num"] = st(e), int(t), sz
 		case "set":
 			t, sz, e := r.ReadSetBegin()
 			rr["st"], rr["a"], rr["num"] = st(e), int(t), sz
-		case "map":
+		case "map", "mappos":
 			kt, vt, sz, e := r.ReadMapBegin()
 			rr["st"], rr["a"], rr["b2"], rr["num"] = st(e), int(kt), int(vt), sz
 		case "msg":
@@ -440,6 +464,13 @@ func (c *c19) run(seed int64, n int, thorough bool, casesFile string) {
 				c.hdr("list", t, 0, sz, nil, nil)
 				c.hdr("set", t, 0, sz, nil, nil)
 				c.hdr("map", t, types[(t+sz)%len(types)], sz, nil, nil)
+				// the count patched in later: nothing, one byte or more written behind the slot in the meantime
+				for _, pre := range [][]byte{nil, {byte(t), 0, 1}} {
+					for _, tail := range [][]byte{nil, {0}, {1, 2, 3, 4, 5}} {
+						c.hdrAt("listpos", t, 0, sz, nil, nil, pre, tail)
+						c.hdrAt("mappos", t, types[(t+sz)%len(types)], sz, nil, nil, pre, tail)
+					}
+				}
 			}
 		}
 		c.hdr("stop", 0, 0, 0, nil, nil)
